@@ -1,5 +1,5 @@
 SPECIFICATION Spec
-CONSTANT RuleName = "maxdef"
+CONSTANT RuleName = "edf"
 CONSTRAINT Track
 POSTCONDITION Post
 CHECK_DEADLOCK FALSE
